@@ -9,28 +9,28 @@ PYVC_TRUST = [
 
 PROPS = {
     'C01': {
-        'modules': ['contracts.c01_encode', 'contracts.c01_arrays', 'contracts.c04_runtime'],
+        'modules': ['contracts.c01_encode', 'contracts.c01_arrays', 'contracts.c01_wrappers', 'contracts.c04_runtime'],
         'standins': ['py_codec'],
         'trusted': PYVC_TRUST + ['struct.pack(e+id, x) (CPython struct module): trusted leaf'],
         'assumptions': ['prophyc text -> generated class mapping (python generator + exec): bounded stand-in only'],
         'level': 'proof',
     },
     'C02': {
-        'modules': ['contracts.c02_decode', 'contracts.c04_runtime'],
+        'modules': ['contracts.c02_decode', 'contracts.c02_arrays', 'contracts.c01_wrappers', 'contracts.c04_runtime'],
         'standins': ['py_codec'],
         'trusted': PYVC_TRUST + ['struct.unpack inverts struct.pack (CPython struct module): trusted leaf'],
         'assumptions': ['arrays counted by a sizer round-trip only up to 65536 elements (documented guard)'],
         'level': 'proof',
     },
     'C06': {
-        'modules': ['contracts.c02_decode'],
+        'modules': ['contracts.c02_decode', 'contracts.c02_arrays', 'contracts.c01_wrappers'],
         'standins': ['py_fuzz'],
         'trusted': PYVC_TRUST + ['struct.unpack raises struct.error only on a length mismatch'],
         'assumptions': [],
         'level': 'proof',
     },
     'C19': {
-        'modules': ['contracts.c01_encode', 'contracts.c01_arrays', 'contracts.c04_runtime'],
+        'modules': ['contracts.c01_encode', 'contracts.c01_arrays', 'contracts.c01_wrappers', 'contracts.c04_runtime'],
         'standins': ['py_codec'],
         'trusted': PYVC_TRUST,
         'assumptions': ['host is little-endian (C++ native == little)'],
